@@ -5,6 +5,7 @@ import (
 	"fmt"
 	"os"
 	"path/filepath"
+	"sort"
 	"strings"
 	"testing"
 	"time"
@@ -149,6 +150,7 @@ func features(tree specgen.J) []string {
 			f = append(f, k)
 		}
 	}
+	sort.Strings(f)
 	return f
 }
 
